@@ -171,6 +171,10 @@ class StatsExt:
             # survives re-initialisation; the statistics of earlier replications are
             # still subscribed to it, the new ones must be subscribed as well)
             model.producer = QueueProducer() if self.case.get("falsy_producer") else EventProducer()
+        if self.case.get("held_list") and not hasattr(model, "_held_list"):
+            # the model keeps the event list handle it got the first time (e.g. to
+            # guard cancellations with contains()) over all later replications
+            model._held_list = sim.eventlist()
         model.stats = []
         for i, sp in enumerate(self.spec):
             kind = sp["kind"]
@@ -208,6 +212,22 @@ class StatsExt:
                 ps = cls("plain%d" % j)
                 model.add_output_statistic("plain%d" % j, ps)
                 model.plain.append(ps)
+        io = runner.prog.get("init_obs")
+        if io:
+            # the model re-registers a current value (queue length, jobs in system) into a
+            # statistic whenever that statistic announces that it was initialised, i.e.
+            # right after the warm-up reset: the observation counts
+            ext = self
+            model._at_init = []
+            for i, v, w in io:
+                k = i % len(self.spec)
+
+                class _AtInit(EventListener):
+                    def notify(l, event, _k=k, _v=v, _w=w):
+                        ext.observe(runner, model, _k, _v, _w)
+                li = _AtInit()
+                model._at_init.append(li)
+                model.stats[k].add_listener(StatEvents.INITIALIZED_EVENT, li)
         wo = runner.prog.get("warmup_obs")
         if wo:
             # the model subscribes to the warm-up notification AFTER creating its
@@ -238,6 +258,10 @@ class StatsExt:
             else:
                 v = st.next_float()
             runner.hist.H.append(("draw", owner, idx, common.fhex(v)))
+            if hasattr(model, "_held_list"):
+                # what the kept handle says about the pending events
+                runner.hist.H.append(("draw", owner, idx, "held-list size %d, empty %s"
+                                      % (model._held_list.size(), model._held_list.is_empty())))
             self.observe(runner, model, a[1], v, st.next_float())
         elif kind == "noop":
             pass
